@@ -8,9 +8,13 @@
    have not been deleted (DeleteLast removes the last Node and everything encoded after it); `batch_from ctx0 (live ops)`
    = what a fresh encoder produces for them; `spec_output` = header (once a node has been encoded) ++ that.
    `step` is the code as it is (delete_last_node leaves the context alone), `step_fixed` the repaired code.
-   What ties `enc_node` to the real parse_node is the harness (props/C17/check.py), not a theorem. *)
+   The last part instantiates the section with the REAL per-node WBXML encoding, Model/EncWbxml.v (Model/FlowEnc.v,
+   Proofs/FlowEncProofs.v): context = (tag code page, attribute code page, current tag), and the premise that the
+   per-node encoding is a function of (context, node) is a theorem there.  What ties EncWbxml to wbxml_encoder.c is the
+   harness (props/C06 for the batch encoder, props/C17/check.py for the flow state machine). *)
 From Coq Require Import List NArith Bool.
-From Wbxml Require Import Model.Flow Proofs.FlowProofs.
+From Wbxml Require Import Model.Codec Model.EncWbxml Model.Flow Model.FlowEnc Proofs.FlowProofs Proofs.FlowEncProofs.
+From Wbxml Require Model.EncXml Model.FlowEncXml Proofs.FlowEncXmlProofs.
 Import ListNotations.
 
 (* --- the repaired code: the full theorem, for every per-node encoder and every history ------------------ *)
@@ -68,4 +72,128 @@ Example C17_ex_safe :
               Node (CElt 0 5 []); EltEnd (CElt 0 45 []) true; GetOutput]%N in
   c_safe ops = true /\ c_get_output (c_run [9]%N ops) = c_spec_output [9]%N ops /\
   c_get_output (c_run [9]%N ops) = [9; 109; 0; 1; 83; 3; 97; 0; 1; 0; 0; 5; 1]%N.
+Proof. vm_compute. auto. Qed.
+
+(* --- the real WBXML encoder (Model/EncWbxml.v) as the per-node encoder ----------------------------------- *)
+
+(* FRAME.  With the string table disabled (flow mode switches it off) the encoding of a node neither reads nor writes
+   the string table: started with any other table it does the same and hands that table back untouched *)
+Theorem C17_encwbxml_node_frame : forall tbl e, e_use_strtbl e = false -> forall n parent st t k,
+  parse_node tbl e parent n (set_strtbl st t k) =
+  match parse_node tbl e parent n st with EOk (b, st') => EOk (b, set_strtbl st' t k) | EErr c => EErr c end.
+Proof. exact parse_node_frame. Qed.
+Print Assumptions C17_encwbxml_node_frame.
+
+(* BALANCE.  A node that is encoded successfully leaves the CDATA state as it found it: entered outside a CDATA section
+   (in_cdata = FALSE, cdata = NULL) it ends outside; so a whole-node encode can never leave in_cdata stale *)
+Theorem C17_encwbxml_node_cdata_balance : forall tbl e, e_use_strtbl e = false -> forall n parent st b st',
+  parse_node tbl e parent n st = EOk (b, st') ->
+  (in_cdata st = false /\ cdata st = None -> in_cdata st' = false /\ cdata st' = None) /\
+  (in_cdata st = true /\ cdata st <> None -> in_cdata st' = true /\ cdata st' <> None).
+Proof. exact parse_node_balance. Qed.
+Print Assumptions C17_encwbxml_node_cdata_balance.
+
+(* hence the premise of the parametric theorems: the per-node encoding is a function of (context, node), where the
+   context is (tagCodePage, attrCodePage, current_tag).  current_tag IS read (parse_text on a detached text node:
+   binary-flagged current tag), so it belongs to what delete_last_node must restore, with the two code pages *)
+Theorem C17_encwbxml_node_function_of_context : forall tbl e, e_use_strtbl e = false -> forall parent n st1 st2,
+  (in_cdata st1 = false /\ cdata st1 = None) -> (in_cdata st2 = false /\ cdata st2 = None) ->
+  ctx_of st1 = ctx_of st2 ->
+  match parse_node tbl e parent n st1, parse_node tbl e parent n st2 with
+  | EOk (b1, s1), EOk (b2, s2) =>
+    b1 = b2 /\ ctx_of s1 = ctx_of s2 /\
+    (in_cdata s1 = false /\ cdata s1 = None) /\ (in_cdata s2 = false /\ cdata s2 = None) /\
+    strtbl s1 = strtbl st1 /\ strtbl_len s1 = strtbl_len st1 /\ strtbl s2 = strtbl st2 /\ strtbl_len s2 = strtbl_len st2
+  | EErr c1, EErr c2 => c1 = c2
+  | _, _ => False
+  end.
+Proof. exact enc_node_function_of_context. Qed.
+Print Assumptions C17_encwbxml_node_function_of_context.
+
+(* every history, raw element starts and ends included: the repaired flow encoder holds the header followed by the
+   batch encoding (by the same EncWbxml functions, fresh context) of the fragments that remain *)
+Theorem C17_flow_equals_batch_encwbxml_fragments : forall tbl e ops,
+  w_get_output (w_run_fixed tbl e ops) = w_spec_output tbl e ops.
+Proof. exact (fun tbl e => fixed_output wctx node wctx0 (w_enc_node tbl e) (w_enc_start e) w_enc_end (w_header e)). Qed.
+Print Assumptions C17_flow_equals_batch_encwbxml_fragments.
+
+(* histories whose remaining fragments are whole nodes: header ++ EncWbxml's batch body (parse_node over the chain of
+   the remaining nodes, fresh encoder), whenever the batch encoder accepts them *)
+Theorem C17_flow_equals_batch_encwbxml : forall tbl e, e_use_strtbl e = false -> forall ops ns b st',
+  w_live ops = map (@FNode node) ns ->
+  parse_nodes tbl e None ns (init_est [] 0) = EOk (b, st') ->
+  w_get_output (w_run_fixed tbl e ops) =
+  (if seen node (srun node ops) then fill_header e (init_est [] 0) else []) ++ b.
+Proof. exact flow_equals_batch_encwbxml. Qed.
+Print Assumptions C17_flow_equals_batch_encwbxml.
+
+(* ... which is the document wbxml_tree_to_wbxml produces for those nodes with the string table switched off *)
+Theorem C17_flow_equals_wbxml_tree_to_wbxml : forall tbl l o ops ns doc,
+  o_use_strtbl o = false ->
+  w_live ops = map (@FNode node) ns -> ns <> [] ->
+  enc_wbxml tbl l o ns = EOk doc ->
+  w_get_output (w_run_fixed tbl (enc_env l o) ops) = doc.
+Proof. exact flow_equals_enc_wbxml. Qed.
+Print Assumptions C17_flow_equals_wbxml_tree_to_wbxml.
+
+(* non-vacuity on the real encoder: <tok 5 page 0/>, <tok 19 page 1>b</>, delete, <tok 7 page 1/>.  Unrepaired: the
+   SWITCH_PAGE before the last element is missing; repaired = wbxml_tree_to_wbxml of the two remaining elements *)
+Example C17_ex_encwbxml_d16 :
+  let l0 := mk_blang 0 1 None None None None None in
+  let e0 := flow_env l0 false false 3 in
+  let ops := [Node (NElt (TagTok 0 5 0 []) [] []); Node (NElt (TagTok 1 19 0 []) [] [NText [98]]); DeleteLast;
+              Node (NElt (TagTok 1 7 0 []) [] []); GetOutput]%N in
+  w_get_output (w_run [] e0 ops) = [3; 1; 106; 0; 5; 7]%N /\
+  w_get_output (w_run_fixed [] e0 ops) = [3; 1; 106; 0; 5; 0; 1; 7]%N /\
+  enc_wbxml [] l0 (mk_opts 3 false true false) [NElt (TagTok 0 5 0 []) [] []; NElt (TagTok 1 7 0 []) [] []]%N
+    = EOk [3; 1; 106; 0; 5; 0; 1; 7]%N.
+Proof. vm_compute. auto. Qed.
+
+(* --- the real XML encoder (Model/EncXml.v) as the per-node encoder --------------------------------------- *)
+
+(* EncXml's state is (indent, in_content, in_cdata, current tag).  BALANCE: a node that is encoded successfully and
+   entered with in_cdata = FALSE ends with in_cdata = FALSE — a CDATA section is one node, opened and closed inside
+   one parse_single_node.  So in_cdata is FALSE between top-level nodes and delete_last_node need not restore it;
+   the flow context is (indent, in_content, current tag), exactly what the repaired delete_last_node restores *)
+Theorem C17_encxml_node_cdata_balance : forall o n l parent s b s',
+  EncXml.enc_node l o parent s n = EncXml.XOk (b, s') -> EncXml.e_in_cdata s = false -> EncXml.e_in_cdata s' = false.
+Proof. exact FlowEncXmlProofs.enc_node_keeps_outside. Qed.
+Print Assumptions C17_encxml_node_cdata_balance.
+
+(* every history, raw element starts and ends included *)
+Theorem C17_flow_equals_batch_encxml_fragments : forall l o ops,
+  FlowEncXml.x_get_output (FlowEncXml.x_run_fixed l o ops) = FlowEncXml.x_spec_output l o ops.
+Proof.
+  exact (fun l o => fixed_output FlowEncXml.xctx EncXml.node FlowEncXml.xctx0 (FlowEncXml.x_enc_node l o)
+                                 (FlowEncXml.x_enc_start l o) (FlowEncXml.x_enc_end o) (FlowEncXml.x_header l o)).
+Qed.
+Print Assumptions C17_flow_equals_batch_encxml_fragments.
+
+(* histories whose remaining fragments are whole nodes: header ++ EncXml's batch body of those nodes *)
+Theorem C17_flow_equals_batch_encxml : forall l o ops ns b s',
+  FlowEncXml.x_live ops = map (@FNode EncXml.node) ns ->
+  EncXml.enc_nodes l o EncXml.proot ns (EncXml.est0 0) = EncXml.XOk (b, s') ->
+  FlowEncXml.x_get_output (FlowEncXml.x_run_fixed l o ops) =
+  (if seen EncXml.node (srun EncXml.node ops) then EncXml.xml_header l o else []) ++ b.
+Proof. exact FlowEncXmlProofs.flow_equals_batch_encxml. Qed.
+Print Assumptions C17_flow_equals_batch_encxml.
+
+(* ... which is the document wbxml_tree_to_xml produces for those nodes *)
+Theorem C17_flow_equals_wbxml_tree_to_xml : forall l o ops ns doc,
+  FlowEncXml.x_live ops = map (@FNode EncXml.node) ns -> ns <> [] ->
+  EncXml.enc_xml_opts l o ns = EncXml.XOk doc ->
+  FlowEncXml.x_get_output (FlowEncXml.x_run_fixed l o ops) = doc.
+Proof. exact FlowEncXmlProofs.flow_equals_enc_xml. Qed.
+Print Assumptions C17_flow_equals_wbxml_tree_to_xml.
+
+(* non-vacuity (indented XML): raw <a> (indent 1), <c/>, raw </a> (indent 0), delete back to before <c/>, <d/>.
+   Unrepaired: <d/> is not indented; repaired: it is, as in the batch encoding of <a> <d/> *)
+Example C17_ex_encxml_d16 :
+  let l0 := EncXml.mk_xlang 0 [] None [] None false [] [] in
+  let o0 := EncXml.mk_opts EncXml.Indent 1 false false in
+  let a := EncXml.Elt (EncXml.TLit [97]%N) [] [EncXml.Elt (EncXml.TLit [98]%N) [] []] in
+  let ops := [EltStart a true; Node (EncXml.Elt (EncXml.TLit [99]%N) [] []); EltEnd a true; DeleteLast;
+              Node (EncXml.Elt (EncXml.TLit [100]%N) [] []); GetOutput] in
+  out _ (FlowEncXml.x_run l0 o0 ops) = [60; 97; 62; 10; 60; 100; 47; 62; 10]%N /\
+  out _ (FlowEncXml.x_run_fixed l0 o0 ops) = [60; 97; 62; 10; 32; 60; 100; 47; 62; 10]%N.
 Proof. vm_compute. auto. Qed.
